@@ -250,6 +250,30 @@ def isCDTOf (rings : List (List Pt)) (tris : List Tri) : Bool :=
 
 def isConstrainedDelaunay (tris : List Tri) : Bool := locallyDelaunay (tris.map Tri.ccw)
 
+/-! ### constrained Delaunay triangulation of a COLLECTION of polygons
+
+`ConstrainedDelaunayTriangulator::compute` triangulates every component polygon of its input on its own and
+returns the triangles of all components in one flat collection.  The specification: the output splits into
+one group per component, group `i` being a constrained Delaunay triangulation of component `i`.  For
+components with pairwise disjoint interiors (they may share boundary edges or vertices — legal in a
+GeometryCollection) the group of a triangle is determined by the output itself: the component whose interior
+contains the triangle's centroid.  Nothing is assumed about the order of the output. -/
+
+/-- the centroid of `t` lies strictly inside the polygon `rings` (exact: everything scaled by 3) -/
+def ownedBy (rings : List (List Pt)) (t : Tri) : Bool :=
+  decide (locateInPolygon (centroid3 t) (rings.map (fun r => r.map scale3)) = Loc.interior)
+
+/-- the output triangles that belong to component `rings` -/
+def trisIn (rings : List (List Pt)) (tris : List Tri) : List Tri := tris.filter (ownedBy rings)
+
+/-- every output triangle belongs to exactly one component, and every component is tiled — exactly, with the
+constrained Delaunay condition on the edges shared *inside the group* — by the triangles that belong to it.
+(A pair of triangles of two different components that share a boundary edge of both is NOT subject to the
+Delaunay condition: that edge is a constraint of both polygons.) -/
+def isCDTOfCollection (polys : List (List (List Pt))) (tris : List Tri) : Bool :=
+  tris.all (fun t => decide ((polys.filter (fun rings => ownedBy rings t)).length = 1)) &&
+  polys.all (fun rings => isCDTOf rings (trisIn rings tris) && isConstrainedDelaunay (trisIn rings tris))
+
 /-! ### Voronoi cells (cell vertices are computed doubles, brought to the common integer scale) -/
 
 /-- `a ≤ b` up to the relative slack 1e-9 (`a`, `b` ≥ 0) -/
